@@ -45,13 +45,13 @@ STRATEGIES = ["sweep", "sweep", "double", "random", "raw"]
 
 
 def plan(tier):
-    n = 160 if tier == "quick" else 3200
-    return {"cases": n, "params": {"sweep_stride": 4 if tier == "quick" else 1, "random": 20 if tier == "quick" else 120,
+    n = 80 if tier == "quick" else 1600
+    return {"cases": n, "params": {"sweep_stride": 6 if tier == "quick" else 1, "random": 20 if tier == "quick" else 120,
                                   "raw": 60 if tier == "quick" else 600},
             "timeout_s": 1800 if tier == "quick" else 14000,
             "min": {"controlled_schedules": 2_000, "sweep_schedules": 1_000, "random_schedules": 200, "raw_races": 500,
                     "switches_forced": 1_500, "scn_first_call": 5, "scn_miss_same": 5, "scn_miss_diff": 5,
-                    "scn_next_chain": 5, "scn_dependent": 5, "scn_kwonly": 5, "scn_after_failed_build": 5, "scn_callable_arg": 5, "calls_with_keywords": 15}}
+                    "scn_next_chain": 5, "scn_dependent": 5, "scn_kwonly": 5, "scn_after_failed_build": 5, "scn_callable_arg": 5, "calls_with_keywords": 4}}
 
 
 class TVF(PVF):
